@@ -31,6 +31,7 @@ _SPECS = None
 def ground_closure(specs, formulas, depth=DEPTH):
     extra = []
     seen_apps = set()
+    keep = []           # keyed by ast id: keep the terms alive (z3 re-uses ids after GC)
     frontier = list(formulas)
     for _ in range(depth):
         apps = specs.collect_apps(frontier)
@@ -39,6 +40,7 @@ def ground_closure(specs, formulas, depth=DEPTH):
             if a.get_id() in seen_apps:
                 continue
             seen_apps.add(a.get_id())
+            keep.append(a)
             new.append(specs.instance(a))
         if not new:
             break
@@ -51,6 +53,7 @@ def ground_closure(specs, formulas, depth=DEPTH):
 def used_spec_names(specs, formulas):
     names = set()
     seen = set()
+    keep = []           # see ground_closure
     todo = list(formulas)
 
     def walk(e):
@@ -58,6 +61,7 @@ def used_spec_names(specs, formulas):
         if k in seen:
             return
         seen.add(k)
+        keep.append(e)
         if z3.is_quantifier(e):
             walk(e.body())
         elif z3.is_app(e):
@@ -156,9 +160,9 @@ def abstract_nl(e):
     the abstraction implies `unsat` of the exact problem.  This keeps the nested-sum VCs in
     linear arithmetic + UF + arrays, where z3 is fast and does not diverge in nlsat."""
     k = e.get_id()
-    r = _ABS_MEMO.get(k)
-    if r is not None:
-        return r
+    hit = _ABS_MEMO.get(k)
+    if hit is not None and hit[0].eq(e):     # the memo keeps (key term, value): ids are re-used
+        return hit[1]
     if z3.is_quantifier(e):
         n = e.num_vars()
         cs = [z3.Const("absq_%s_%d" % (e.var_name(i), k), e.var_sort(i)) for i in range(n)]
@@ -195,7 +199,7 @@ def abstract_nl(e):
             r = e.decl()(*ch)
     else:
         r = e
-    _ABS_MEMO[k] = r
+    _ABS_MEMO[k] = (e, r)
     return r
 
 
